@@ -7,5 +7,5 @@ def run(v):
     mc.run_for(v, 'C11')
     # Lifecycle.tla: explicit close() at any moment relative to reconnects, losses and requests (incl. racing calls), replayed on
     # the real client; the recorded paths are judged by the monitors of RSocket.tla
-    lifecycle.check(v, ('C11.',))
+    lifecycle.check(v, ('C11.',), 'Lifecycle_close.cfg')
     conn.check(v, 'C11', families.FAMILIES['C11'])
